@@ -427,3 +427,18 @@ Fixpoint corr_mcalls_go (c : ccfg) (outs : list hres) (cl : client) (its : list 
                | S m => corr_mcalls_go c outs cl' r m end
   end.
 Definition corr_mcalls (x : ccase) (n : nat) := corr_mcalls_go (k_cfg x) (k_outcomes x) client0 (k_iters x) n.
+Fixpoint c06_detail_go (c : ccfg) (seen : Z) (its : list citer) : list (list bool) :=
+  match its with
+  | [] => []
+  | it :: r =>
+      let before := map snd (List.filter (fun p => (fst p <? seen)%Z) (ci_bus it)) in
+      let fresh := map snd (List.filter (fun p => (seen <=? fst p)%Z && (fst p <? ci_next it)%Z) (ci_bus it)) in
+      [list_eqb (call_eqb (cc_ts c)) (expected_calls c (rreplay before) fresh) (ci_calls it);
+       world_eqb (nthw it 0) (rreplay (delivered it));
+       world_eqb (nthw it 4) (project c (nthw it 0));
+       world_eqb (nthw it 2) (nthw it 0); world_eqb (nthw it 6) (nthw it 4);
+       wempty (nthw it 1); wempty (nthw it 5);
+       match ci_queue it with [] => true | _ => false end; negb (ci_exc it); (ci_next it =? ci_limit it + 1)%Z]
+      :: c06_detail_go c (ci_next it) r
+  end.
+Definition c06_detail (x : ccase) := c06_detail_go (k_cfg x) 3 (k_iters x).
